@@ -49,6 +49,8 @@ func main() {
 		}
 	case "timer":
 		runTimer(w, *seed, *from, *runs, *steps)
+	case "payload":
+		runPayload(w, *seed, *full)
 	case "quorum":
 		runQuorum(w, *full, *lo, *hi)
 	case "open":
